@@ -137,6 +137,9 @@ def apply(fnode, final_attrs=None, only=None):
     return new
 
 
+_PURE_METHODS = {'startswith', 'endswith', 'rstrip', 'lstrip', 'strip', 'lower', 'upper', 'count', 'find', 'isdigit', 'isalpha', 'isalnum', 'isspace'}
+
+
 def _pure_test(e):
     if isinstance(e, (ast.Name, ast.Constant)):
         return True
@@ -150,8 +153,15 @@ def _pure_test(e):
         return _pure_test(e.operand)
     if isinstance(e, ast.Tuple):
         return all(_pure_test(v) for v in e.elts)
-    if isinstance(e, ast.Call) and isinstance(e.func, ast.Name) and e.func.id in ('len', 'isinstance', 'bool') and not e.keywords:
+    if isinstance(e, ast.Call) and isinstance(e.func, ast.Name) and e.func.id in ('len', 'isinstance', 'bool', 'hasattr', 'callable') and not e.keywords:
         return all(_pure_test(a) for a in e.args)
+    if isinstance(e, ast.Call) and isinstance(e.func, ast.Attribute) and e.func.attr in _PURE_METHODS and not e.keywords:
+        return _pure_test(e.func.value) and all(_pure_test(a) for a in e.args)
+    if isinstance(e, ast.BinOp):
+        return _pure_test(e.left) and _pure_test(e.right)
+    if isinstance(e, ast.Subscript):
+        return _pure_test(e.value) and (isinstance(e.slice, (ast.Name, ast.Constant)) or
+                                        (isinstance(e.slice, ast.Slice) and all(x is None or _pure_test(x) for x in (e.slice.lower, e.slice.upper, e.slice.step))))
     return False
 
 
